@@ -299,6 +299,8 @@ fn execute_case(case: &C18Case, want_trace: bool) -> simcore::Outcome {
                 let want: Vec<u8> = (0..n).map(|i| pattern(c.seed, c.offset.wrapping_add(i as u8))).collect();
                 if c.implicit && n != c.cfg_len as usize {
                     violation = Some(Violation::new("C18.wrong-bytes", &format!("{fam}|implicit-length"), format!("implicit-header mode with configured length {}: returned length {n}", c.cfg_len)));
+                } else if !c.implicit && n != c.len as usize {
+                    violation = Some(Violation::new("C18.wrong-length", fam, format!("explicit-header mode: the chip reported a packet of {} bytes at offset {} but the returned length is {n} (via {:?})", c.len, c.offset, c.via)));
                 } else if buf[..n] != want[..] {
                     let id = if via_adapter { "C18.mac-saw-other-bytes" } else { "C18.wrong-bytes" };
                     violation = Some(Violation::new(id, fam, format!("returned {n} bytes {} but the chip buffer at offset {} holds {} (via {:?})", hex(&buf[..n]), c.offset, hex(&want), c.via)));
